@@ -106,3 +106,52 @@ Definition outcome_ok_gen (strict_location : bool) (handled : bool) (result : st
    weak: a Location was set before the 201 *)
 Definition outcome_ok := outcome_ok_gen true.
 Definition outcome_ok_weak := outcome_ok_gen false.
+
+(* ---------------- C20: served bodies, headers, status ---------------- *)
+From Coq Require Import ZArith.
+From Verif Require Import Base.Time Pub.Calls Pub.Value Pub.Util Pub.BaseActor.
+
+Record sstate := { s_page : option json; s_now : option Z }.
+Definition s0 : sstate := {| s_page := None; s_now := None |}.
+
+(* what each endpoint must write for the value the application supplied *)
+Definition served_value (entry : string) (p : json) : option json :=
+  if String.eqb entry "getinbox" then match dedupe_ordered_items p with Ok p' => Some p' | _ => None end
+  else if String.eqb entry "getoutbox" then Some p
+  else Some (clear_sensitive (S (jdepth p)) p).
+
+Definition serve_step (entry : string) (st : sstate) (e : ev) (x : ans) : option sstate :=
+  match e with
+  | EApp name _ =>
+      if String.eqb name "GetInbox" || String.eqb name "GetOutbox" then
+        match x with AJson j => Some {| s_page := Some j; s_now := s_now st |} | _ => Some st end
+      else Some st
+  | EDb op _ =>
+      if String.eqb op "Get" && String.eqb entry "handler" then
+        match x with AJson j => Some {| s_page := Some j; s_now := s_now st |} | _ => Some st end
+      else Some st
+  | ENow => match x with AZ t => Some {| s_page := s_page st; s_now := Some t |}
+            | _ => Some {| s_page := s_page st; s_now := Some 0%Z |}   (* a Clock cannot answer anything but a time; mirrors the model's default *)
+            end
+  | ESetHeader k v =>
+      if String.eqb k "Content-Type" then (if String.eqb v content_type_value then Some st else None)
+      else if String.eqb k "Date" then match s_now st with Some t => if String.eqb v (http_date t) then Some st else None | None => None end
+      else if String.eqb k "Digest" then (if String.eqb v digest_placeholder then Some st else None)
+      else Some st
+  | EWriteHeader n =>
+      if String.eqb entry "handler" then
+        match s_page st with
+        | Some p => if Nat.eqb n (if is_or_extends (type_name p) "Tombstone" then 410 else 200) then Some st else None
+        | None => None
+        end
+      else Some st
+  | EWrite b =>
+      match s_page st with
+      | Some p => match served_value entry p with
+                  | Some v => if jeqb b (canon (streams_serialize v)) then Some st else None
+                  | None => None
+                  end
+      | None => None
+      end
+  | _ => Some st
+  end.
